@@ -543,15 +543,26 @@ const DURS: [(u64, u32); 26] = [
     ((1 << 32) - 1, 999_999_999),
     (1 << 32, 0),
     (1 << 32, 1_500_000),
-    ((1 << 43) + 1, 1_500_000),
-    ((1 << 44) - 1, 999_000_000),
-    ((1 << 53) - 1, 0),
-    (MAX, 0),
+    ((1 << 42) + 1, 1_500_000),
+    ((1 << 43) - 1, 999_499_999),
+    ((1 << 43) - 1, 488_770_000),
+    ((1 << 43) - 3, 1_464_000),
     (MAX, 999_999_999),
 ];
 
-/// durations on which `{:.3}` of `as_secs_f64` is off by more than 1 ms (class K4: ≥ 2^44 s)
-const DURS_K4: [(u64, u32); 5] = [(1 << 44, 1_500_000), ((1 << 44) + 1, 1_500_000), ((1 << 53) + 1, 0), (1 << 60, 999_000_000), (MAX - 1, 0)];
+/// durations of class K4 (≥ 2^43 s), most of them off by more than 1 ms through `as_secs_f64`
+const DURS_K4: [(u64, u32); 10] = [
+    (1 << 43, 0),
+    ((1 << 43) + 1, 1_500_000),
+    (12_564_216_744_490, 928_849_251),
+    ((1 << 44) - 1, 999_000_000),
+    (1 << 44, 1_500_000),
+    ((1 << 44) + 1, 1_500_000),
+    ((1 << 53) + 1, 0),
+    (1 << 60, 999_000_000),
+    (MAX - 1, 0),
+    (MAX, 0),
+];
 
 const STRS: [&str; 12] = ["foo", "foo bar", "", "é日本🎵", " lead", "trail ", "a/b c.mp3", "\t", "x  y", "say \"hi\" it's", "a:b=c", "0"];
 const STRS_K1: [&str; 5] = ["Joe's", "a\\b", "x\"y", "'", "\\"];
@@ -817,8 +828,8 @@ fn r_range(r: &mut Rng) -> String {
 fn r_dur(r: &mut Rng) -> String {
     let secs = match r.below(10) {
         0..=4 => r.below(7200) as u64,
-        5 | 6 => r.next() >> (20 + r.below(44)), // anything below 2^44
-        7 => (1u64 << r.below(44)).wrapping_sub(r.below(2) as u64),
+        5 | 6 => r.next() >> (21 + r.below(43)), // anything below 2^43
+        7 => (1u64 << r.below(44)).saturating_sub(1 + r.below(2) as u64),
         8 => r.below(3) as u64,
         _ => r.next() >> 21, // < 2^43
     };
@@ -1003,6 +1014,12 @@ pub fn gen(cfg: &Cfg) -> Vec<String> {
     let mut r = Rng::new(cfg.seed ^ 0xC15);
     let mut ops = boundary_ops();
     let n = cfg.n.unwrap_or(if cfg.thorough { 300_000 } else { 20_000 });
+    // durations just below the K4 threshold 2^43 s, where binary + decimal rounding come closest to 1 ms
+    for _ in 0..n / 20 {
+        let secs = (1u64 << 43) - 1 - (r.next() >> (21 + r.below(30)));
+        let nanos = r.below(1_000_000_000);
+        ops.push(format!("pc.seek {}{secs}.{nanos}", r.pick(&["f", "b", "a"])));
+    }
     for i in 0..n {
         if i % 25 == 24 {
             ops.push(outside_op(&mut r));
